@@ -1,3 +1,2 @@
--- This module serves as the root of the `Hifi` library.
--- Import modules here that should be built as part of the library.
-import Hifi.Basic
+-- Root of the `Hifi` library: every property file (which pulls in model, specs and lemmas).
+import Hifi.Props.C01
